@@ -16,6 +16,7 @@ import (
 	"time"
 
 	"github.com/daeuniverse/dae/common/consts"
+	"github.com/daeuniverse/dae/component/dns"
 	verifsim "github.com/daeuniverse/dae/internal/verifsim"
 )
 
@@ -100,8 +101,18 @@ func (w *dnsWorld) c10Owners(k [4]uint32) string {
 
 // c10Check compares the simulated kernel table with the cache at a quiescent point.
 func (w *dnsWorld) c10Check(when string) {
-	if w.s.Failed() || w.kern.tainted || w.kern.inSync > 0 || len(w.curOp) > 0 || w.envTasks > 0 {
+	if w.s.Failed() || w.kern.tainted || w.kern.inSync > 0 || w.kern.inCallback > 0 || len(w.curOp) > 0 || w.envTasks > 0 {
 		return
+	}
+	if len(w.kern.dirty) > 0 {
+		// the last sync of some owner failed (injected delete failure) and has not been
+		// repeated successfully yet
+		return
+	}
+	afterFault := ""
+	if w.kern.delFails > 0 {
+		w.s.Probe("dns.c10-comparison-after-failed-delete-was-repaired")
+		afterFault = "-after-a-failed-delete-elsewhere"
 	}
 	if ch := w.ctl.bpfUpdateCh; ch != nil && len(ch) > 0 {
 		return
@@ -140,15 +151,29 @@ func (w *dnsWorld) c10Check(when string) {
 					}
 				}
 			}
+			if o, ok := w.kern.failedDel[k]; ok {
+				cls = "after-failed-delete-never-repaired"
+				when += fmt.Sprintf(" (the delete of this address failed in task %s; every owner has synced successfully since)", o)
+			} else if o, ok := w.kern.unrecorded[k]; ok {
+				cls = "written-by-a-sync-whose-delete-failed"
+				when += fmt.Sprintf(" (written by the update batch of a sync of owner %q whose delete batch then failed; every owner has synced successfully since)", o)
+			} else {
+				cls += afterFault
+			}
 			w.s.Failf("c10-stale-address@"+cls, "%s: domain_routing_map holds %s (bitmap %s) but no live cache entry with a non-zero domain bitmap lists that address (entries listing it: %s); last written by %s",
 				when, dnsKernKeyString(k), dnsBitmapString(g), w.c10Owners(k), w.kern.lastWriter[k])
 			return
 		case !inKern && inExp:
-			w.s.Failf("c10-missing-address@"+w.kern.writerClass(k), "%s: live cache entries %s list %s (union of their domain bitmaps %s) but domain_routing_map has no entry for it; last touched by %s",
+			w.s.Failf("c10-missing-address@"+w.kern.writerClass(k)+afterFault, "%s: live cache entries %s list %s (union of their domain bitmaps %s) but domain_routing_map has no entry for it; last touched by %s",
 				when, w.c10Owners(k), dnsKernKeyString(k), dnsBitmapString(e), w.kern.lastWriter[k])
 			return
 		case e != g:
-			w.s.Failf("c10-wrong-bitmap@"+w.kern.writerClass(k), "%s: domain_routing_map[%s] = %s but the live cache entries listing it (%s) have the union %s; last written by %s",
+			if _, ok := w.kern.unrecorded[k]; ok {
+				w.s.Failf("c10-wrong-bitmap@written-by-a-sync-whose-delete-failed", "%s: domain_routing_map[%s] = %s but the live cache entries listing it (%s) have the union %s; last written by %s, in a sync whose delete batch then failed (every owner has synced successfully since)",
+					when, dnsKernKeyString(k), dnsBitmapString(g), w.c10Owners(k), dnsBitmapString(e), w.kern.lastWriter[k])
+				return
+			}
+			w.s.Failf("c10-wrong-bitmap@"+w.kern.writerClass(k)+afterFault, "%s: domain_routing_map[%s] = %s but the live cache entries listing it (%s) have the union %s; last written by %s",
 				when, dnsKernKeyString(k), dnsBitmapString(g), w.c10Owners(k), dnsBitmapString(e), w.kern.lastWriter[k])
 			return
 		}
@@ -296,8 +321,27 @@ func dnsScenarioC10(w *dnsWorld) {
 			if !reloadOK {
 				break
 			}
-			w.env("reload", func() { w.c10ReloadRestore() })
+			// every other time the reload itself takes the time of the pause (entries
+			// expire between clone and restore) and the next round starts right away,
+			// while the new generation's update worker is still replaying the cache
+			gap := time.Duration(0)
+			if r%2 == 0 {
+				gap = w.pickJumpC10()
+			}
+			var fin func()
+			w.env("reload", func() { fin = w.c10ReloadRestore() })
 			s.RunUntil(func() bool { return w.envTasks == 0 }, 5)
+			if gap > 0 && fin != nil && !s.Failed() {
+				s.Probe("dns.c10-reload-takes-time")
+				w.idle(gap)
+			}
+			if fin != nil && !s.Failed() {
+				w.env("reload", fin)
+				s.RunUntil(func() bool { return w.envTasks == 0 }, 5)
+			}
+			if gap > 0 {
+				continue
+			}
 		}
 		w.idle(w.pickJumpC10())
 		w.c10Quiescent(fmt.Sprintf("after the pause following round %d", r))
@@ -327,7 +371,11 @@ func (w *dnsWorld) pickJumpC10() time.Duration {
 // c10ReloadRestore models a reload that builds a new generation: cleared kernel
 // table, fresh tracker, new controller, cache replayed through RestoreReloadCache
 // (which re-populates the table through the asynchronous update worker).
-func (w *dnsWorld) c10ReloadRestore() {
+//
+// Two halves: the first one retires the old generation and clears the table, the
+// returned second one builds the new generation and replays the cache; the
+// scenario may let time pass in between (a reload takes time).
+func (w *dnsWorld) c10ReloadRestore() (finish func()) {
 	s := w.s
 	old := w.ctl
 	entries := old.CloneCacheForReload()
@@ -346,6 +394,12 @@ func (w *dnsWorld) c10ReloadRestore() {
 		delete(w.kern.m, k)
 		w.kern.lastWriter[k] = "reload clear (restore)"
 	}
+	w.kern.dirty, w.kern.failedDel = map[string]bool{}, map[[4]uint32]string{}
+	return func() { w.c10ReloadFinish(routing, entries) }
+}
+
+func (w *dnsWorld) c10ReloadFinish(routing *dns.Dns, entries map[string]*DnsCache) {
+	s := w.s
 	core := &controlPlaneCore{log: w.log, domainRouting: newDomainRoutingTracker()}
 	core.bpf.Store(w.plane.core.bpf.Load())
 	w.plane.core = core
@@ -354,6 +408,7 @@ func (w *dnsWorld) c10ReloadRestore() {
 		s.Failf("harness-dns", "reload: %v", err)
 		return
 	}
+	w.newCtl = nc
 	w.reloads++
 	s.Fault("reload-clone-restore")
 	s.Notef("reload: new generation, %d entries replayed", len(entries))
